@@ -426,7 +426,7 @@ def socket_cuts(tier, seed, only=None):
         if wt.is_alive():
             fails.append(dict(clause='a server port hands out messages without blocking forever', inputs={}, detail='PortServer.poll() / connect did not return within 60 s'))
     # addresses
-    for host in ('', 'localhost', '127.0.0.1', 'a.b-c_d', 'h' * 300, 'ü', ' '):
+    for host in ('', 'localhost', '127.0.0.1', 'a.b-c_d', 'h' * 300, 'ü', ' ', 'LocalHost', 'StudioMac.local', 'ÄÖ', ' padded ', 'UPPER', 'fe80--1', '0x10'):
         for portno in (1, 2, 9, 10, 80, 8080, 65534, 65535):
             n += 1
             seen.add(('addr', host, portno))
